@@ -64,6 +64,7 @@ func init() {
 		scripts := []string{"L", "M", "LL", "MM", "LM", "ML", "LML", "MLM", "LLMM", "MMLL", "LMLMLMLM", "MMMM", "LLLL", "MLLM"}
 		for i, a := range apis {
 			c.run("rep", scripts[c.rng.Intn(len(scripts))], a)
+			c.run("embed", a)
 			if isTopLevel(a) {
 				c.run("rtparse", a)
 			} else {
